@@ -4,14 +4,10 @@ Open Scope N_scope.
 
 Theorem C03_depths : forall r enum roots names,
   wf_b r = true -> contract r (walked roots) enum -> small r ->
-  match scan r enum roots names with
-  | SOk evs =>
+  exists evs, scan r enum roots names = SOk evs /\
       let h := history_of evs in
       let c := spec_census r (walked roots) in
-      h_depth h = sat32 (hist_depth c) /\ h_tagdepth h = sat32 (tag_depth c)
-  | SPanic m => m = P_FUEL
-  | SErr _ => False
-  end.
+      h_depth h = sat32 (hist_depth c) /\ h_tagdepth h = sat32 (tag_depth c).
 Proof. exact depths_exact. Qed.
 Print Assumptions C03_depths.
 
@@ -32,6 +28,6 @@ Print Assumptions C03_tdepth_is_longest_chain.
 (* under the contract the scan never hits "commit is not available" or any other panic *)
 Theorem C03_no_panic : forall r enum roots names,
   wf_b r = true -> contract r (walked roots) enum -> small r ->
-  forall m, scan r enum roots names = SPanic m -> m = P_FUEL.
+  forall m, scan r enum roots names <> SPanic m.
 Proof. exact scan_no_panic. Qed.
 Print Assumptions C03_no_panic.
